@@ -1,1 +1,1375 @@
-fn main() {}
+//! C11 - Decoding untrusted bytes never panics, aborts, hangs or over-allocates.
+//!
+//! Parent process: builds a deterministic corpus of valid encodings (seeds) with
+//! their field layout (recorded by a layout-recording `Writer`), writes it to a
+//! scratch file and spawns 16 single-threaded worker subprocesses of itself.
+//! Every case of the (deterministic) case space is a function of its id:
+//! id -> (decoder, version, net, seed, mutation class, parameter) -> bytes.
+//! Workers run each case through the decoder's entry points and the stateless
+//! post-decode checks under three monitors (panic, allocation, watchdog) and
+//! report findings / counters as JSON lines. The parent aggregates, interprets
+//! worker exit statuses (86 = over-cap allocation, 87 = hang, signal = abort),
+//! restarts shards and confirms hangs / aborts by re-running the single case.
+
+use grin_chain::txhashset::{BitmapAccumulator, BitmapChunk, BitmapSegment};
+use grin_core::consensus;
+use grin_core::core::hash::{Hash, Hashed};
+use grin_core::core::merkle_proof::MerkleProof;
+use grin_core::core::pmmr::{self, ReadablePMMR, ReadonlyPMMR, VecBackend, PMMR};
+use grin_core::core::{
+	Block, BlockHeader, FeeFields, KernelFeatures, NRDRelativeHeight, Output, OutputFeatures,
+	OutputIdentifier, Segment, SegmentIdentifier, SegmentProof, Transaction, TransactionBody,
+	TxKernel, UntrustedBlock, UntrustedBlockHeader, UntrustedCompactBlock, Weighting,
+};
+use grin_core::global::{self, ChainTypes};
+use grin_core::pow::{Difficulty, Proof, ProofOfWork};
+use grin_core::ser::{
+	self, BufReader, DeserializationMode, PMMRIndexHashable, PMMRable, ProtocolVersion, Readable,
+	SerializationMode, Writeable, Writer,
+};
+use grin_p2p::msg::{
+	BanReason, GetPeerAddrs, Hand, Headers, Locator, Message, MsgHeader, MsgHeaderWrapper,
+	OutputBitmapSegmentResponse, OutputSegmentResponse, PeerAddrs, PeerError, Ping, Pong,
+	SegmentRequest, SegmentResponse, Shake, TxHashSetArchive, TxHashSetRequest, Type,
+};
+use grin_p2p::verif_export::Codec;
+use grin_p2p::{Capabilities, PeerAddr, ReasonForBan};
+use grin_util::secp::pedersen::{Commitment, RangeProof};
+use grin_util::secp::Signature;
+use grin_util::ToHex;
+use serde_json::{json, Value};
+use std::collections::{BTreeMap, BTreeSet, HashMap, HashSet};
+use std::io::{BufRead, Read, Write};
+use std::net::{Shutdown, SocketAddr, TcpListener, TcpStream};
+use std::process::{Command, Stdio};
+use std::sync::mpsc;
+use std::time::{Duration, Instant, SystemTime, UNIX_EPOCH};
+use vcommon::ctx::{Run, Scratch, Tier};
+use vcommon::monitor::{
+	self, alloc_monitor_installed, catch, track_alloc, watchdog_enter, watchdog_leave,
+	watchdog_start, TrackingAlloc, EXIT_ALLOC_OVER_CAP, EXIT_HANG,
+};
+use vcommon::prng::{fnv64, splitmix64, Prng};
+use vcommon::world::{self, World};
+
+#[global_allocator]
+static A: TrackingAlloc = TrackingAlloc;
+
+const NSHARDS: u64 = 16;
+const VERSIONS: [u32; 4] = [1, 2, 3, 1000];
+const HARD_CAP_BYTES: u64 = 256 << 20;
+const CASE_BUDGET_MS: u64 = 20_000;
+const MIB: u64 = 1 << 20;
+
+/// Allocation oracle: largest single request / live high-water allowed for an input of `len` bytes.
+fn single_budget(len: u64) -> u64 {
+	16 * len + 2 * MIB
+}
+fn peak_budget(len: u64) -> u64 {
+	64 * len + 8 * MIB
+}
+
+// ------------------------------------------------------------------ decoders
+
+const D_MSGHEADER: usize = 0;
+const D_HANDMSG: usize = 1;
+const D_SHAKEMSG: usize = 2;
+const D_HAND: usize = 3;
+const D_SHAKE: usize = 4;
+const D_PING: usize = 5;
+const D_PONG: usize = 6;
+const D_GETPEERADDRS: usize = 7;
+const D_PEERADDRS: usize = 8;
+const D_PEERERROR: usize = 9;
+const D_LOCATOR: usize = 10;
+const D_BANREASON: usize = 11;
+const D_TXHSREQ: usize = 12;
+const D_TXHSARCH: usize = 13;
+const D_HASH: usize = 14;
+const D_SEGREQ: usize = 15;
+const D_SEGID: usize = 16;
+const D_SEGPROOF: usize = 17;
+const D_SEG_OUT: usize = 18;
+const D_SEG_RP: usize = 19;
+const D_SEG_KERN: usize = 20;
+const D_SEG_CHUNK: usize = 21;
+const D_BITMAPSEG: usize = 22;
+const D_OUTSEGRESP: usize = 23;
+const D_RPSEGRESP: usize = 24;
+const D_KERNSEGRESP: usize = 25;
+const D_BITMAPSEGRESP: usize = 26;
+const D_UHEADER: usize = 27;
+const D_UBLOCK: usize = 28;
+const D_UCOMPACT: usize = 29;
+const D_TX: usize = 30;
+const D_TXBODY: usize = 31;
+const D_PROOF: usize = 32;
+const D_POW: usize = 33;
+const D_MERKLE: usize = 34;
+const D_MERKLE_HEXBIN: usize = 35;
+const D_MERKLE_HEXSTR: usize = 36;
+const D_CODEC: usize = 37;
+const NDEC: usize = 38;
+
+const DECODERS: [&str; NDEC] = [
+	"MsgHeaderWrapper",
+	"read_message<Hand>",
+	"read_message<Shake>",
+	"Hand",
+	"Shake",
+	"Ping",
+	"Pong",
+	"GetPeerAddrs",
+	"PeerAddrs",
+	"PeerError",
+	"Locator",
+	"BanReason",
+	"TxHashSetRequest",
+	"TxHashSetArchive",
+	"Hash",
+	"SegmentRequest",
+	"SegmentIdentifier",
+	"SegmentProof",
+	"Segment<OutputIdentifier>",
+	"Segment<RangeProof>",
+	"Segment<TxKernel>",
+	"Segment<BitmapChunk>",
+	"BitmapSegment",
+	"OutputSegmentResponse",
+	"SegmentResponse<RangeProof>",
+	"SegmentResponse<TxKernel>",
+	"OutputBitmapSegmentResponse",
+	"UntrustedBlockHeader",
+	"UntrustedBlock",
+	"UntrustedCompactBlock",
+	"Transaction",
+	"TransactionBody",
+	"Proof",
+	"ProofOfWork",
+	"MerkleProof::read",
+	"MerkleProof::from_hex(hex(bytes))",
+	"MerkleProof::from_hex(str)",
+	"Codec::read",
+];
+
+/// Fixture kind used by the segment post-decode checks of a decoder.
+const FX_OUT: u8 = 0;
+const FX_RP: u8 = 1;
+const FX_KERN: u8 = 2;
+const FX_BITMAP: u8 = 3;
+
+fn fx_kind(dec: usize) -> Option<u8> {
+	match dec {
+		D_SEG_OUT | D_OUTSEGRESP => Some(FX_OUT),
+		D_SEG_RP | D_RPSEGRESP => Some(FX_RP),
+		D_SEG_KERN | D_KERNSEGRESP => Some(FX_KERN),
+		D_SEG_CHUNK | D_BITMAPSEG | D_BITMAPSEGRESP => Some(FX_BITMAP),
+		_ => None,
+	}
+}
+
+fn is_framed(dec: usize) -> bool {
+	matches!(dec, D_MSGHEADER | D_HANDMSG | D_SHAKEMSG | D_CODEC)
+}
+
+/// Decoders whose behaviour depends on the chain type (magic, PoW contexts, weights):
+/// their decoder-level (seedless) cases are run under both parameter sets.
+fn both_nets(dec: usize) -> bool {
+	matches!(
+		dec,
+		D_MSGHEADER | D_CODEC | D_UHEADER | D_UBLOCK | D_UCOMPACT | D_TX | D_TXBODY
+	)
+}
+
+fn set_net(net: u8) {
+	global::set_local_chain_type(if net == 1 {
+		ChainTypes::Mainnet
+	} else {
+		ChainTypes::AutomatedTesting
+	});
+	global::set_local_nrd_enabled(true);
+}
+
+fn magic_for(net: u8) -> [u8; 2] {
+	if net == 1 {
+		[97, 61]
+	} else {
+		[73, 43]
+	}
+}
+
+// ------------------------------------------------------------------ layout-recording writer
+
+#[derive(Clone, Copy, Debug)]
+struct Field {
+	off: u32,
+	len: u32,
+	/// 0 = blob, otherwise the width in bytes of a big-endian integer field
+	kind: u8,
+}
+
+struct RecWriter {
+	buf: Vec<u8>,
+	fields: Vec<Field>,
+	ver: u32,
+}
+
+impl RecWriter {
+	fn new(ver: u32) -> RecWriter {
+		RecWriter {
+			buf: vec![],
+			fields: vec![],
+			ver,
+		}
+	}
+	fn rec(&mut self, len: usize, kind: u8) {
+		self.fields.push(Field {
+			off: self.buf.len() as u32,
+			len: len as u32,
+			kind,
+		});
+	}
+}
+
+impl Writer for RecWriter {
+	fn serialization_mode(&self) -> SerializationMode {
+		SerializationMode::Full
+	}
+	fn protocol_version(&self) -> ProtocolVersion {
+		ProtocolVersion(self.ver)
+	}
+	fn write_u8(&mut self, n: u8) -> Result<(), ser::Error> {
+		self.rec(1, 1);
+		self.buf.push(n);
+		Ok(())
+	}
+	fn write_u16(&mut self, n: u16) -> Result<(), ser::Error> {
+		self.rec(2, 2);
+		self.buf.extend_from_slice(&n.to_be_bytes());
+		Ok(())
+	}
+	fn write_u32(&mut self, n: u32) -> Result<(), ser::Error> {
+		self.rec(4, 4);
+		self.buf.extend_from_slice(&n.to_be_bytes());
+		Ok(())
+	}
+	fn write_i32(&mut self, n: i32) -> Result<(), ser::Error> {
+		self.rec(4, 4);
+		self.buf.extend_from_slice(&n.to_be_bytes());
+		Ok(())
+	}
+	fn write_u64(&mut self, n: u64) -> Result<(), ser::Error> {
+		self.rec(8, 8);
+		self.buf.extend_from_slice(&n.to_be_bytes());
+		Ok(())
+	}
+	fn write_i64(&mut self, n: i64) -> Result<(), ser::Error> {
+		self.rec(8, 8);
+		self.buf.extend_from_slice(&n.to_be_bytes());
+		Ok(())
+	}
+	fn write_fixed_bytes<T: AsRef<[u8]>>(&mut self, bytes: T) -> Result<(), ser::Error> {
+		let b = bytes.as_ref();
+		self.rec(b.len(), 0);
+		self.buf.extend_from_slice(b);
+		Ok(())
+	}
+}
+
+// ------------------------------------------------------------------ corpus
+
+#[derive(Clone, Debug)]
+struct Seed {
+	dec: u16,
+	ver: u32,
+	net: u8,
+	/// fixture index for segment post-checks (u32::MAX = none)
+	aux: u32,
+	/// run the enumerated classes (field / tag / truncation) for this (seed, version)
+	enumerate: bool,
+	/// the honest encoding is expected to decode successfully
+	expect_ok: bool,
+	label: String,
+	bytes: Vec<u8>,
+	fields: Vec<Field>,
+}
+
+#[derive(Clone, Debug)]
+struct Fixture {
+	kind: u8,
+	n_leaves: u64,
+	size: u64,
+	root: Hash,
+	other: Hash,
+	final_root: Hash,
+	hash_last_pos: u64,
+}
+
+struct Corpus {
+	seeds: Vec<Seed>,
+	fixtures: Vec<Fixture>,
+}
+
+fn put_u32(v: &mut Vec<u8>, x: u32) {
+	v.extend_from_slice(&x.to_le_bytes());
+}
+fn put_u64(v: &mut Vec<u8>, x: u64) {
+	v.extend_from_slice(&x.to_le_bytes());
+}
+fn put_bytes(v: &mut Vec<u8>, b: &[u8]) {
+	put_u32(v, b.len() as u32);
+	v.extend_from_slice(b);
+}
+
+struct Cur<'a> {
+	b: &'a [u8],
+	p: usize,
+}
+impl<'a> Cur<'a> {
+	fn u8(&mut self) -> u8 {
+		let x = self.b[self.p];
+		self.p += 1;
+		x
+	}
+	fn u32(&mut self) -> u32 {
+		let mut a = [0u8; 4];
+		a.copy_from_slice(&self.b[self.p..self.p + 4]);
+		self.p += 4;
+		u32::from_le_bytes(a)
+	}
+	fn u64(&mut self) -> u64 {
+		let mut a = [0u8; 8];
+		a.copy_from_slice(&self.b[self.p..self.p + 8]);
+		self.p += 8;
+		u64::from_le_bytes(a)
+	}
+	fn bytes(&mut self) -> Vec<u8> {
+		let n = self.u32() as usize;
+		let v = self.b[self.p..self.p + n].to_vec();
+		self.p += n;
+		v
+	}
+}
+
+impl Corpus {
+	fn to_bytes(&self) -> Vec<u8> {
+		let mut v = vec![];
+		put_u32(&mut v, self.seeds.len() as u32);
+		for s in &self.seeds {
+			put_u32(&mut v, s.dec as u32);
+			put_u32(&mut v, s.ver);
+			v.push(s.net);
+			put_u32(&mut v, s.aux);
+			v.push(s.enumerate as u8);
+			v.push(s.expect_ok as u8);
+			put_bytes(&mut v, s.label.as_bytes());
+			put_bytes(&mut v, &s.bytes);
+			put_u32(&mut v, s.fields.len() as u32);
+			for f in &s.fields {
+				put_u32(&mut v, f.off);
+				put_u32(&mut v, f.len);
+				v.push(f.kind);
+			}
+		}
+		put_u32(&mut v, self.fixtures.len() as u32);
+		for f in &self.fixtures {
+			v.push(f.kind);
+			put_u64(&mut v, f.n_leaves);
+			put_u64(&mut v, f.size);
+			v.extend_from_slice(f.root.as_bytes());
+			v.extend_from_slice(f.other.as_bytes());
+			v.extend_from_slice(f.final_root.as_bytes());
+			put_u64(&mut v, f.hash_last_pos);
+		}
+		v
+	}
+
+	fn from_bytes(b: &[u8]) -> Corpus {
+		let mut c = Cur { b, p: 0 };
+		let n = c.u32();
+		let mut seeds = vec![];
+		for _ in 0..n {
+			let dec = c.u32() as u16;
+			let ver = c.u32();
+			let net = c.u8();
+			let aux = c.u32();
+			let enumerate = c.u8() != 0;
+			let expect_ok = c.u8() != 0;
+			let label = String::from_utf8_lossy(&c.bytes()).to_string();
+			let bytes = c.bytes();
+			let nf = c.u32();
+			let mut fields = vec![];
+			for _ in 0..nf {
+				let off = c.u32();
+				let len = c.u32();
+				let kind = c.u8();
+				fields.push(Field { off, len, kind });
+			}
+			seeds.push(Seed {
+				dec,
+				ver,
+				net,
+				aux,
+				enumerate,
+				expect_ok,
+				label,
+				bytes,
+				fields,
+			});
+		}
+		let nfx = c.u32();
+		let mut fixtures = vec![];
+		for _ in 0..nfx {
+			let kind = c.u8();
+			let n_leaves = c.u64();
+			let size = c.u64();
+			let mut h = |c: &mut Cur| {
+				let x = Hash::from_vec(&c.b[c.p..c.p + 32]);
+				c.p += 32;
+				x
+			};
+			let root = h(&mut c);
+			let other = h(&mut c);
+			let final_root = h(&mut c);
+			let hash_last_pos = c.u64();
+			fixtures.push(Fixture {
+				kind,
+				n_leaves,
+				size,
+				root,
+				other,
+				final_root,
+				hash_last_pos,
+			});
+		}
+		Corpus { seeds, fixtures }
+	}
+}
+
+// ------------------------------------------------------------------ corpus builder
+
+struct Builder {
+	seeds: Vec<Seed>,
+	fixtures: Vec<Fixture>,
+	ordinal: usize,
+}
+
+fn fixed_ts(offset_secs: i64) -> chrono::DateTime<chrono::Utc> {
+	chrono::DateTime::<chrono::Utc>::from_timestamp(1_600_000_000 + offset_secs, 0).unwrap()
+}
+
+fn rnd_hash(p: &mut Prng) -> Hash {
+	Hash::from_vec(&p.bytes(32))
+}
+fn rnd_commit(p: &mut Prng) -> Commitment {
+	let mut b = p.bytes(33);
+	b[0] = 8 | (b[0] & 1);
+	Commitment::from_vec(b)
+}
+fn rnd_sig(p: &mut Prng) -> Signature {
+	let mut a = [0u8; 64];
+	p.fill(&mut a);
+	Signature::from_raw_data(&a).expect("sig from raw")
+}
+fn rnd_rproof(p: &mut Prng) -> RangeProof {
+	let mut proof = [0u8; grin_util::secp::constants::MAX_PROOF_SIZE];
+	p.fill(&mut proof);
+	RangeProof {
+		proof,
+		plen: grin_util::secp::constants::MAX_PROOF_SIZE,
+	}
+}
+fn rnd_kernel(p: &mut Prng, i: u64) -> TxKernel {
+	let fee = FeeFields::new(0, 1 + p.below(1 << 30)).unwrap();
+	let features = match i % 4 {
+		0 => KernelFeatures::Plain { fee },
+		1 => KernelFeatures::Coinbase,
+		2 => KernelFeatures::HeightLocked {
+			fee,
+			lock_height: p.below(1 << 20),
+		},
+		_ => KernelFeatures::NoRecentDuplicate {
+			fee,
+			relative_height: NRDRelativeHeight::new(1 + p.below(1000)).unwrap(),
+		},
+	};
+	TxKernel {
+		features,
+		excess: rnd_commit(p),
+		excess_sig: rnd_sig(p),
+	}
+}
+fn rnd_outid(p: &mut Prng, i: u64) -> OutputIdentifier {
+	OutputIdentifier {
+		features: if i % 5 == 0 {
+			OutputFeatures::Coinbase
+		} else {
+			OutputFeatures::Plain
+		},
+		commit: rnd_commit(p),
+	}
+}
+
+fn build_mmr<T: PMMRable>(items: &[T]) -> (VecBackend<T>, u64, Hash) {
+	let mut ba = VecBackend::new();
+	{
+		let mut m = PMMR::new(&mut ba);
+		for it in items {
+			m.push(it).expect("mmr push");
+		}
+	}
+	let size = ba.size();
+	let root = ReadonlyPMMR::at(&ba, size).root().expect("mmr root");
+	(ba, size, root)
+}
+
+/// Mirror of the compact block wire layout (the body type has no public constructor
+/// taking an explicit nonce, and `From<Block>` draws a random one).
+struct CbEnc {
+	header: BlockHeader,
+	nonce: u64,
+	out_full: Vec<Output>,
+	kern_full: Vec<TxKernel>,
+	kern_ids: Vec<grin_core::core::ShortId>,
+}
+impl Writeable for CbEnc {
+	fn write<W: Writer>(&self, w: &mut W) -> Result<(), ser::Error> {
+		self.header.write(w)?;
+		w.write_u64(self.nonce)?;
+		w.write_u64(self.out_full.len() as u64)?;
+		w.write_u64(self.kern_full.len() as u64)?;
+		w.write_u64(self.kern_ids.len() as u64)?;
+		self.out_full.write(w)?;
+		self.kern_full.write(w)?;
+		self.kern_ids.write(w)?;
+		Ok(())
+	}
+}
+
+/// Encoding of a `Segment<BitmapChunk>` as `Segment::read` consumes it (`BitmapChunk::read`
+/// reads no bytes).
+struct ChunkSegEnc(Segment<BitmapChunk>);
+impl Writeable for ChunkSegEnc {
+	fn write<W: Writer>(&self, w: &mut W) -> Result<(), ser::Error> {
+		let s = &self.0;
+		s.id().write(w)?;
+		let hashes: Vec<(u64, Hash)> = s.hash_iter().collect();
+		w.write_u64(hashes.len() as u64)?;
+		for (p, _) in &hashes {
+			w.write_u64(1 + p)?;
+		}
+		for (_, h) in &hashes {
+			h.write(w)?;
+		}
+		let leaves: Vec<u64> = s.leaf_iter().map(|(p, _)| p).collect();
+		w.write_u64(leaves.len() as u64)?;
+		for p in &leaves {
+			w.write_u64(1 + p)?;
+		}
+		s.proof().write(w)?;
+		Ok(())
+	}
+}
+
+struct Framed<'a, W: Writeable> {
+	net: u8,
+	ty: u8,
+	body: &'a W,
+}
+impl<'a, W: Writeable> Writeable for Framed<'a, W> {
+	fn write<WR: Writer>(&self, w: &mut WR) -> Result<(), ser::Error> {
+		let body = ser::ser_vec(self.body, w.protocol_version())?;
+		let m = magic_for(self.net);
+		w.write_u8(m[0])?;
+		w.write_u8(m[1])?;
+		w.write_u8(self.ty)?;
+		w.write_u64(body.len() as u64)?;
+		self.body.write(w)
+	}
+}
+
+struct Two<'a, A: Writeable, B: Writeable>(&'a A, &'a B);
+impl<'a, A: Writeable, B: Writeable> Writeable for Two<'a, A, B> {
+	fn write<W: Writer>(&self, w: &mut W) -> Result<(), ser::Error> {
+		self.0.write(w)?;
+		self.1.write(w)
+	}
+}
+
+struct RawBytes(Vec<u8>);
+impl Writeable for RawBytes {
+	fn write<W: Writer>(&self, w: &mut W) -> Result<(), ser::Error> {
+		for b in &self.0 {
+			w.write_fixed_bytes(&[*b])?;
+		}
+		Ok(())
+	}
+}
+
+impl Builder {
+	fn add<W: Writeable>(
+		&mut self,
+		dec: usize,
+		net: u8,
+		aux: u32,
+		expect_ok: bool,
+		label: &str,
+		thing: &W,
+	) {
+		set_net(net);
+		let mut encs: Vec<(u32, Vec<u8>, Vec<Field>)> = vec![];
+		for v in VERSIONS.iter() {
+			let mut w = RecWriter::new(*v);
+			if thing.write(&mut w).is_ok() {
+				encs.push((*v, w.buf, w.fields));
+			}
+		}
+		set_net(0);
+		let n = encs.len();
+		for i in 0..n {
+			// identical encodings at several versions: enumerate at one of them only
+			let same: Vec<usize> = (0..n).filter(|j| encs[*j].1 == encs[i].1).collect();
+			let chosen = same[self.ordinal % same.len()];
+			let (v, bytes, fields) = encs[i].clone();
+			self.seeds.push(Seed {
+				dec: dec as u16,
+				ver: v,
+				net,
+				aux,
+				enumerate: chosen == i,
+				expect_ok,
+				label: label.to_string(),
+				bytes,
+				fields,
+			});
+		}
+		self.ordinal += 1;
+	}
+
+	fn framed<W: Writeable>(
+		&mut self,
+		dec: usize,
+		net: u8,
+		aux: u32,
+		expect_ok: bool,
+		label: &str,
+		ty: u8,
+		body: &W,
+	) {
+		self.add(dec, net, aux, expect_ok, label, &Framed { net, ty, body });
+	}
+
+	fn fixture(&mut self, f: Fixture) -> u32 {
+		self.fixtures.push(f);
+		(self.fixtures.len() - 1) as u32
+	}
+}
+
+/// Segment seeds of one leaf type over a few MMR sizes; returns (segment, fixture, label).
+fn seg_family<T>(
+	b: &mut Builder,
+	p: &mut Prng,
+	kind: u8,
+	dec: usize,
+	prunable: bool,
+	mk: &dyn Fn(&mut Prng, u64) -> T,
+) -> Vec<(Segment<T>, u32, String)>
+where
+	T: PMMRable<E = T> + Readable + Writeable + std::fmt::Debug,
+{
+	let shapes: [(u64, u8, u64); 9] = [
+		(1, 0, 0),
+		(6, 1, 1),
+		(6, 2, 1),
+		(13, 2, 0),
+		(13, 2, 3),
+		(40, 3, 2),
+		(40, 5, 1),
+		(40, 0, 39),
+		(40, 6, 0),
+	];
+	let mut out = vec![];
+	for n in [1u64, 6, 13, 40, 700] {
+		let items: Vec<T> = (0..n).map(|i| mk(p, i)).collect();
+		let (ba, size, root) = build_mmr(&items);
+		let other = rnd_hash(p);
+		let final_root = (root, other).hash_with_index(size);
+		let fx = b.fixture(Fixture {
+			kind,
+			n_leaves: n,
+			size,
+			root,
+			other,
+			final_root,
+			hash_last_pos: size,
+		});
+		let ro = ReadonlyPMMR::at(&ba, size);
+		for (sn, h, idx) in shapes.iter() {
+			if *sn != n {
+				continue;
+			}
+			let id = SegmentIdentifier {
+				height: *h,
+				idx: *idx,
+			};
+			if let Ok(seg) = Segment::from_pmmr(id, &ro, prunable) {
+				let label = format!("n={} h={} idx={}", n, h, idx);
+				b.add(dec, 0, fx, true, &label, &seg);
+				out.push((seg, fx, label));
+			}
+		}
+	}
+	out
+}
+
+fn build_corpus(seed: u64) -> Corpus {
+	world::init_globals(true);
+	set_net(0);
+	let mut b = Builder {
+		seeds: vec![],
+		fixtures: vec![],
+		ordinal: 0,
+	};
+	let mut p = Prng::new(seed ^ 0xC11_5EED);
+	let w = World::new(seed);
+
+	// ---- transactions (real bulletproofs), blocks (real PoW at the testing edge bits)
+	let det_tx = |tx: Transaction, p: &mut Prng| -> Transaction {
+		let mut ks = tx.kernels().to_vec();
+		for k in ks.iter_mut() {
+			k.excess_sig = rnd_sig(p);
+		}
+		let outs = tx.outputs().to_vec();
+		let mut t = Transaction::new(tx.inputs(), &outs, &ks);
+		t.offset = tx.offset.clone();
+		t
+	};
+	let coin = |n: u32, v: u64, cb: bool| w.coin(v, &w.key(n), cb);
+	let (tx1, _) = w.tx(
+		&mut p,
+		&[coin(1, 60_000_000_000, true)],
+		&[(20_000_000_000, w.key(10)), (39_000_000_000, w.key(11))],
+		KernelFeatures::Plain {
+			fee: world::fee_fields(1_000_000_000),
+		},
+	);
+	let tx1 = det_tx(tx1, &mut p);
+	let (tx2, _) = w.tx(
+		&mut p,
+		&[coin(2, 5_000_000_000, false), coin(3, 7_000_000_000, false)],
+		&[(4_000_000_000, w.key(12)), (7_500_000_000, w.key(13))],
+		world::height_locked(500_000_000, 7),
+	);
+	let tx2 = det_tx(tx2, &mut p);
+	let (tx3, _) = w.tx(
+		&mut p,
+		&[coin(4, 3_000_000_000, false)],
+		&[(2_900_000_000, w.key(14))],
+		world::nrd(100_000_000, 5),
+	);
+	let tx3 = det_tx(tx3, &mut p);
+	let agg = grin_core::core::transaction::aggregate(&[tx1.clone(), tx2.clone(), tx3.clone()])
+		.expect("aggregate");
+
+	let mut prev = BlockHeader::default();
+	prev.timestamp = fixed_ts(0);
+	let mk_block = |txs: &[Transaction], key: u32, prev: &BlockHeader, p: &mut Prng| -> Block {
+		let fees: u64 = txs.iter().map(|t| t.fee()).sum();
+		let (out, mut kern) = w.coinbase(&w.key(key), fees);
+		kern.excess_sig = rnd_sig(p);
+		let mut blk =
+			Block::from_reward(prev, txs, out, kern, Difficulty::min_dma()).expect("from_reward");
+		blk.header.timestamp = fixed_ts(60 * (blk.header.height as i64));
+		blk.header.pow.proof.edge_bits = global::min_edge_bits();
+		world::mine(&mut blk.header, prev.total_difficulty()).expect("mine");
+		blk
+	};
+	let blk_small = mk_block(&[], 20, &prev, &mut p);
+	let blk_med = mk_block(
+		&[tx1.clone(), tx2.clone(), tx3.clone()],
+		21,
+		&blk_small.header,
+		&mut p,
+	);
+	let mut chain_headers = vec![blk_small.header.clone(), blk_med.header.clone()];
+	{
+		// a run of mined empty headers for the Headers message (crosses the batch size of 32)
+		let mut prevh = blk_med.header.clone();
+		for _ in 0..33 {
+			let mut h = BlockHeader::default();
+			h.height = prevh.height + 1;
+			h.version = consensus::header_version(h.height);
+			h.prev_hash = prevh.hash();
+			h.timestamp = fixed_ts(60 * h.height as i64);
+			h.pow.total_difficulty = prevh.total_difficulty() + Difficulty::min_dma();
+			h.pow.proof.edge_bits = global::min_edge_bits();
+			world::mine(&mut h, prevh.total_difficulty()).expect("mine header");
+			chain_headers.push(h.clone());
+			prevh = h;
+		}
+	}
+
+	b.add(D_TX, 0, u32::MAX, true, "1in-2out plain", &tx1);
+	b.add(D_TX, 0, u32::MAX, true, "2in-2out height-locked", &tx2);
+	b.add(D_TX, 0, u32::MAX, true, "aggregate 4in-5out-3kern", &agg);
+	b.add(D_TXBODY, 0, u32::MAX, true, "body of tx1", &tx1.body);
+	b.add(D_TXBODY, 0, u32::MAX, true, "body of medium block", &blk_med.body);
+	b.add(D_UBLOCK, 0, u32::MAX, true, "coinbase-only block", &blk_small);
+	b.add(D_UBLOCK, 0, u32::MAX, true, "block with 3 txs", &blk_med);
+	b.add(D_UHEADER, 0, u32::MAX, true, "mined header h=1", &blk_small.header);
+	b.add(D_UHEADER, 0, u32::MAX, true, "mined header h=2", &blk_med.header);
+	b.add(D_POW, 0, u32::MAX, true, "pow of header", &blk_med.header.pow);
+	b.add(D_PROOF, 0, u32::MAX, true, "proof of header", &blk_med.header.pow.proof);
+
+	let mk_cb = |blk: &Block, nonce: u64| -> CbEnc {
+		use grin_core::core::id::ShortIdentifiable;
+		let hh = blk.header.hash();
+		let mut out_full: Vec<Output> = blk
+			.outputs()
+			.iter()
+			.filter(|o| o.is_coinbase())
+			.cloned()
+			.collect();
+		let mut kern_full = vec![];
+		let mut kern_ids = vec![];
+		for k in blk.kernels() {
+			if k.is_coinbase() {
+				kern_full.push(k.clone());
+			} else {
+				kern_ids.push(k.short_id(&hh, nonce));
+			}
+		}
+		out_full.sort_unstable();
+		kern_full.sort_unstable();
+		kern_ids.sort_unstable();
+		CbEnc {
+			header: blk.header.clone(),
+			nonce,
+			out_full,
+			kern_full,
+			kern_ids,
+		}
+	};
+	let cb_small = mk_cb(&blk_small, p.next_u64());
+	let cb_med = mk_cb(&blk_med, p.next_u64());
+	b.add(D_UCOMPACT, 0, u32::MAX, true, "compact of coinbase-only", &cb_small);
+	b.add(D_UCOMPACT, 0, u32::MAX, true, "compact of 3-tx block", &cb_med);
+
+	// ---- mainnet-shaped headers (valid encoding, random proof: reach the PoW verifiers)
+	set_net(1);
+	let mut mainnet_headers = vec![];
+	for (height, eb) in [
+		(100u64, 29u8),
+		(300_000, 29),
+		(600_000, 29),
+		(900_000, 29),
+		(2_000_000, 32),
+		(2_000_001, 31),
+	] {
+		let mut h = BlockHeader::default();
+		h.height = height;
+		h.version = consensus::header_version(height);
+		h.timestamp = fixed_ts(height as i64);
+		h.prev_hash = rnd_hash(&mut p);
+		h.prev_root = rnd_hash(&mut p);
+		h.output_root = rnd_hash(&mut p);
+		h.range_proof_root = rnd_hash(&mut p);
+		h.kernel_root = rnd_hash(&mut p);
+		h.output_mmr_size = pmmr::insertion_to_pmmr_index(height + 10);
+		h.kernel_mmr_size = pmmr::insertion_to_pmmr_index(height + 5);
+		h.pow.total_difficulty = Difficulty::from_num(1 << 40);
+		h.pow.secondary_scaling = 1856;
+		h.pow.nonce = p.next_u64();
+		let mut nonces: BTreeSet<u64> = BTreeSet::new();
+		while nonces.len() < 42 {
+			nonces.insert(p.below(1u64 << eb));
+		}
+		let mut pr = Proof::new(nonces.into_iter().collect());
+		pr.edge_bits = eb;
+		h.pow.proof = pr;
+		mainnet_headers.push(h);
+	}
+	set_net(0);
+	for h in &mainnet_headers {
+		let label = format!("mainnet header h={} eb={}", h.height, h.pow.proof.edge_bits);
+		b.add(D_UHEADER, 1, u32::MAX, false, &label, h);
+	}
+	let mn_block = Block {
+		header: mainnet_headers[4].clone(),
+		body: blk_med.body.clone(),
+	};
+	b.add(D_UBLOCK, 1, u32::MAX, false, "mainnet block", &mn_block);
+	let mut mn_cb = mk_cb(&blk_med, p.next_u64());
+	mn_cb.header = mainnet_headers[3].clone();
+	b.add(D_UCOMPACT, 1, u32::MAX, false, "mainnet compact block", &mn_cb);
+	b.add(D_POW, 1, u32::MAX, true, "mainnet pow", &mainnet_headers[4].pow);
+	b.add(D_PROOF, 1, u32::MAX, true, "mainnet proof", &mainnet_headers[0].pow.proof);
+
+	// ---- small p2p bodies
+	let v4 = PeerAddr(SocketAddr::from(([10, 1, 2, 3], 3414)));
+	let v6 = PeerAddr(SocketAddr::from((
+		[0x2001, 0xdb8, 0, 0, 0, 0xff00, 0x42, 0x8329],
+		13414,
+	)));
+	let hand = Hand {
+		version: ProtocolVersion(3),
+		capabilities: Capabilities::from_bits_truncate(0x4f),
+		nonce: p.next_u64(),
+		genesis: rnd_hash(&mut p),
+		total_difficulty: Difficulty::from_num(123_456),
+		sender_addr: v4,
+		receiver_addr: v6,
+		user_agent: "MW/Grin 5.3.0".to_string(),
+	};
+	let hand2 = Hand {
+		version: ProtocolVersion(1000),
+		capabilities: Capabilities::from_bits_truncate(0xffff_ffff),
+		nonce: 0,
+		genesis: rnd_hash(&mut p),
+		total_difficulty: Difficulty::from_num(u64::MAX),
+		sender_addr: v6,
+		receiver_addr: v4,
+		user_agent: "x".repeat(40),
+	};
+	let shake = Shake {
+		version: ProtocolVersion(2),
+		capabilities: Capabilities::from_bits_truncate(0x0f),
+		genesis: rnd_hash(&mut p),
+		total_difficulty: Difficulty::from_num(99),
+		user_agent: "MW/Grin 5.3.0.abcdef".to_string(),
+	};
+	b.add(D_HAND, 0, u32::MAX, true, "hand v4/v6", &hand);
+	b.add(D_HAND, 0, u32::MAX, true, "hand v6/v4 long agent", &hand2);
+	b.add(D_SHAKE, 0, u32::MAX, true, "shake", &shake);
+	b.framed(D_HANDMSG, 0, u32::MAX, true, "framed hand", Type::Hand as u8, &hand);
+	b.framed(D_HANDMSG, 0, u32::MAX, false, "framed shake as hand", Type::Shake as u8, &shake);
+	b.framed(D_SHAKEMSG, 0, u32::MAX, true, "framed shake", Type::Shake as u8, &shake);
+	let ping = Ping {
+		total_difficulty: Difficulty::from_num(777),
+		height: 1234,
+	};
+	let pong = Pong {
+		total_difficulty: Difficulty::from_num(778),
+		height: 1235,
+	};
+	b.add(D_PING, 0, u32::MAX, true, "ping", &ping);
+	b.add(D_PONG, 0, u32::MAX, true, "pong", &pong);
+	let gpa = GetPeerAddrs {
+		capabilities: Capabilities::from_bits_truncate(0x0f),
+	};
+	b.add(D_GETPEERADDRS, 0, u32::MAX, true, "getpeeraddrs", &gpa);
+	let pa0 = PeerAddrs { peers: vec![] };
+	let pa3 = PeerAddrs {
+		peers: vec![v4, v6, v4],
+	};
+	let pa_many = PeerAddrs {
+		peers: (0..200u32)
+			.map(|i| {
+				if i % 3 == 0 {
+					v6
+				} else {
+					PeerAddr(SocketAddr::from(([10, 0, (i >> 8) as u8, i as u8], 3414)))
+				}
+			})
+			.collect(),
+	};
+	b.add(D_PEERADDRS, 0, u32::MAX, true, "0 peers", &pa0);
+	b.add(D_PEERADDRS, 0, u32::MAX, true, "3 peers", &pa3);
+	b.add(D_PEERADDRS, 0, u32::MAX, true, "200 peers", &pa_many);
+	let perr = PeerError {
+		code: 7,
+		message: "something went wrong".to_string(),
+	};
+	b.add(D_PEERERROR, 0, u32::MAX, true, "peer error", &perr);
+	let loc0 = Locator { hashes: vec![] };
+	let loc1 = Locator {
+		hashes: vec![rnd_hash(&mut p)],
+	};
+	let loc20 = Locator {
+		hashes: (0..20).map(|_| rnd_hash(&mut p)).collect(),
+	};
+	b.add(D_LOCATOR, 0, u32::MAX, true, "0 hashes", &loc0);
+	b.add(D_LOCATOR, 0, u32::MAX, true, "1 hash", &loc1);
+	b.add(D_LOCATOR, 0, u32::MAX, true, "20 hashes", &loc20);
+	let ban = BanReason {
+		ban_reason: ReasonForBan::BadBlock,
+	};
+	b.add(D_BANREASON, 0, u32::MAX, true, "ban reason", &ban);
+	let thr = TxHashSetRequest {
+		hash: rnd_hash(&mut p),
+		height: 4242,
+	};
+	let tha = TxHashSetArchive {
+		hash: rnd_hash(&mut p),
+		height: 4242,
+		bytes: 1_000_000,
+	};
+	b.add(D_TXHSREQ, 0, u32::MAX, true, "txhashset request", &thr);
+	b.add(D_TXHSARCH, 0, u32::MAX, true, "txhashset archive", &tha);
+	let some_hash = rnd_hash(&mut p);
+	b.add(D_HASH, 0, u32::MAX, true, "hash", &some_hash);
+
+	// ---- Merkle proofs
+	let mp0 = MerkleProof::empty();
+	let mp1 = MerkleProof {
+		mmr_size: 3,
+		path: vec![rnd_hash(&mut p)],
+	};
+	let mp10 = MerkleProof {
+		mmr_size: 1500,
+		path: (0..10).map(|_| rnd_hash(&mut p)).collect(),
+	};
+	for (l, m) in [("empty", &mp0), ("1 hash", &mp1), ("10 hashes", &mp10)] {
+		b.add(D_MERKLE, 0, u32::MAX, true, l, m);
+		b.add(D_MERKLE_HEXBIN, 0, u32::MAX, true, l, m);
+		b.add(
+			D_MERKLE_HEXSTR,
+			0,
+			u32::MAX,
+			true,
+			l,
+			&RawBytes(m.to_hex().into_bytes()),
+		);
+	}
+	b.add(
+		D_MERKLE_HEXSTR,
+		0,
+		u32::MAX,
+		true,
+		"upper-case hex",
+		&RawBytes(mp1.to_hex().to_uppercase().into_bytes()),
+	);
+
+	// ---- segments
+	let out_segs = seg_family::<OutputIdentifier>(&mut b, &mut p, FX_OUT, D_SEG_OUT, true, &|p, i| {
+		rnd_outid(p, i)
+	});
+	let rp_segs = seg_family::<RangeProof>(&mut b, &mut p, FX_RP, D_SEG_RP, true, &|p, _| {
+		rnd_rproof(p)
+	});
+	let kern_segs = seg_family::<TxKernel>(&mut b, &mut p, FX_KERN, D_SEG_KERN, false, &|p, i| {
+		rnd_kernel(p, i)
+	});
+	for (i, (seg, fx, label)) in out_segs.iter().enumerate() {
+		if i % 3 == 1 {
+			let r = OutputSegmentResponse {
+				response: SegmentResponse {
+					block_hash: rnd_hash(&mut p),
+					segment: seg.clone(),
+				},
+				output_bitmap_root: rnd_hash(&mut p),
+			};
+			b.add(D_OUTSEGRESP, 0, *fx, true, label, &r);
+		}
+	}
+	for (i, (seg, fx, label)) in rp_segs.iter().enumerate() {
+		if i % 4 == 1 {
+			let r = SegmentResponse {
+				block_hash: rnd_hash(&mut p),
+				segment: seg.clone(),
+			};
+			b.add(D_RPSEGRESP, 0, *fx, true, label, &r);
+		}
+	}
+	for (i, (seg, fx, label)) in kern_segs.iter().enumerate() {
+		if i % 3 == 1 {
+			let r = SegmentResponse {
+				block_hash: rnd_hash(&mut p),
+				segment: seg.clone(),
+			};
+			b.add(D_KERNSEGRESP, 0, *fx, true, label, &r);
+		}
+	}
+	b.add(
+		D_SEGPROOF,
+		0,
+		u32::MAX,
+		true,
+		"proof of a kernel segment",
+		&Two(kern_segs[5].0.proof(), &RawBytes(vec![])),
+	);
+	b.add(
+		D_SEGPROOF,
+		0,
+		u32::MAX,
+		true,
+		"empty-ish proof",
+		&Two(kern_segs[0].0.proof(), &RawBytes(vec![])),
+	);
+	for (h, idx) in [(0u8, 0u64), (3, 2), (9, 1_000_000), (13, 5)] {
+		let id = SegmentIdentifier { height: h, idx };
+		b.add(D_SEGID, 0, u32::MAX, true, &format!("h={} idx={}", h, idx), &id);
+		let rq = SegmentRequest {
+			block_hash: rnd_hash(&mut p),
+			identifier: id,
+		};
+		b.add(D_SEGREQ, 0, u32::MAX, true, &format!("h={} idx={}", h, idx), &rq);
+	}
+
+	// ---- bitmap segments
+	let mut bitmap_seeds: Vec<(BitmapSegment, u32, String)> = vec![];
+	let bshapes: [(u64, u8, u64); 7] = [
+		(1, 0, 0),
+		(5, 1, 1),
+		(5, 2, 1),
+		(20, 2, 2),
+		(20, 4, 1),
+		(20, 3, 0),
+		(70, 6, 0),
+	];
+	for n in [1u64, 5, 20, 70] {
+		let bits = n * 1024 - 100;
+		let idx: Vec<u64> = (0..bits)
+			.filter(|i| {
+				let c = i / 1024;
+				match c % 3 {
+					0 => i % 97 == 0,
+					1 => i % 89 != 0,
+					_ => i % 2 == 0,
+				}
+			})
+			.collect();
+		let mut acc = BitmapAccumulator::new();
+		acc.init(idx.into_iter(), bits).expect("bitmap init");
+		let ro = acc.readonly_pmmr();
+		let size = ro.unpruned_size();
+		let root = acc.root();
+		let other = rnd_hash(&mut p);
+		let hash_last_pos = pmmr::insertion_to_pmmr_index(bits);
+		let final_root = (other, root).hash_with_index(hash_last_pos);
+		let fx = b.fixture(Fixture {
+			kind: FX_BITMAP,
+			n_leaves: pmmr::n_leaves(size),
+			size,
+			root,
+			other,
+			final_root,
+			hash_last_pos,
+		});
+		for (sn, h, i) in bshapes.iter() {
+			if *sn != n {
+				continue;
+			}
+			let id = SegmentIdentifier {
+				height: *h,
+				idx: *i,
+			};
+			if let Ok(seg) = Segment::from_pmmr(id, &ro, false) {
+				let label = format!("chunks={} h={} idx={}", n, h, i);
+				b.add(D_SEG_CHUNK, 0, fx, true, &label, &ChunkSegEnc(seg.clone()));
+				let bs = BitmapSegment::from(seg);
+				b.add(D_BITMAPSEG, 0, fx, true, &label, &bs);
+				bitmap_seeds.push((bs, fx, label));
+			}
+		}
+	}
+	for (i, (bs, fx, label)) in bitmap_seeds.iter().enumerate() {
+		if i % 2 == 1 {
+			let r = OutputBitmapSegmentResponse {
+				block_hash: rnd_hash(&mut p),
+				segment: bs.clone(),
+				output_root: rnd_hash(&mut p),
+			};
+			b.add(D_BITMAPSEGRESP, 0, *fx, true, label, &r);
+		}
+	}
+
+	// ---- message headers
+	for net in [0u8, 1] {
+		for (ty, len) in [(3u8, 16u64), (11, 5000), (9, 2 + 365 * 3), (200, 10), (24, 100_000)] {
+			let label = format!("type={} len={}", ty, len);
+			b.add(
+				D_MSGHEADER,
+				net,
+				u32::MAX,
+				!(net == 0 && ty == 24),
+				&label,
+				&Framed {
+					net,
+					ty,
+					body: &RawBytes(vec![]),
+				}
+				.with_len(len),
+			);
+		}
+	}
+
+	// ---- codec (socket) seeds: one framed message per type
+	{
+		let c = D_CODEC;
+		let x = u32::MAX;
+		b.framed(c, 0, x, true, "Ping", Type::Ping as u8, &ping);
+		b.framed(c, 1, x, true, "Ping (mainnet)", Type::Ping as u8, &ping);
+		b.framed(c, 0, x, true, "Pong", Type::Pong as u8, &pong);
+		b.framed(c, 0, x, true, "BanReason", Type::BanReason as u8, &ban);
+		b.framed(c, 0, x, true, "TransactionKernel", Type::TransactionKernel as u8, &some_hash);
+		b.framed(c, 0, x, true, "GetTransaction", Type::GetTransaction as u8, &some_hash);
+		b.framed(c, 0, x, true, "Transaction", Type::Transaction as u8, &tx1);
+		b.framed(c, 0, x, true, "StemTransaction", Type::StemTransaction as u8, &tx2);
+		b.framed(c, 1, x, true, "Transaction agg (mainnet)", Type::Transaction as u8, &agg);
+		b.framed(c, 0, x, true, "GetBlock", Type::GetBlock as u8, &some_hash);
+		b.framed(c, 0, x, true, "Block small", Type::Block as u8, &blk_small);
+		b.framed(c, 0, x, true, "Block medium", Type::Block as u8, &blk_med);
+		b.framed(c, 1, x, false, "Block (mainnet)", Type::Block as u8, &mn_block);
+		b.framed(c, 0, x, true, "GetCompactBlock", Type::GetCompactBlock as u8, &some_hash);
+		b.framed(c, 0, x, true, "CompactBlock", Type::CompactBlock as u8, &cb_med);
+		b.framed(c, 1, x, false, "CompactBlock (mainnet)", Type::CompactBlock as u8, &mn_cb);
+		b.framed(c, 0, x, true, "GetHeaders", Type::GetHeaders as u8, &loc20);
+		b.framed(c, 0, x, true, "Header", Type::Header as u8, &blk_med.header);
+		b.framed(c, 1, x, false, "Header (mainnet)", Type::Header as u8, &mainnet_headers[4]);
+		let hs3 = Headers {
+			headers: chain_headers[0..3].to_vec(),
+		};
+		let hs35 = Headers {
+			headers: chain_headers.clone(),
+		};
+		let hs_mn = Headers {
+			headers: mainnet_headers[0..3].to_vec(),
+		};
+		b.framed(c, 0, x, true, "Headers x3", Type::Headers as u8, &hs3);
+		b.framed(c, 0, x, true, "Headers x35", Type::Headers as u8, &hs35);
+		b.framed(c, 1, x, false, "Headers x3 (mainnet)", Type::Headers as u8, &hs_mn);
+		b.framed(c, 0, x, true, "GetPeerAddrs", Type::GetPeerAddrs as u8, &gpa);
+		b.framed(c, 0, x, true, "PeerAddrs", Type::PeerAddrs as u8, &pa3);
+		b.framed(c, 0, x, true, "TxHashSetRequest", Type::TxHashSetRequest as u8, &thr);
+		b.framed(c, 0, x, true, "TxHashSetArchive", Type::TxHashSetArchive as u8, &tha);
+		let rq = SegmentRequest {
+			block_hash: some_hash,
+			identifier: SegmentIdentifier { height: 9, idx: 3 },
+		};
+		for t in [
+			Type::GetOutputBitmapSegment,
+			Type::GetOutputSegment,
+			Type::GetRangeProofSegment,
+			Type::GetKernelSegment,
+		] {
+			b.framed(c, 0, x, true, &format!("{:?}", t), t as u8, &rq);
+		}
+		let (bs, bfx, _) = &bitmap_seeds[2];
+		b.framed(
+			c,
+			0,
+			*bfx,
+			true,
+			"OutputBitmapSegment",
+			Type::OutputBitmapSegment as u8,
+			&OutputBitmapSegmentResponse {
+				block_hash: some_hash,
+				segment: bs.clone(),
+				output_root: rnd_hash(&mut p),
+			},
+		);
+		let (os, ofx, _) = &out_segs[2];
+		b.framed(
+			c,
+			0,
+			*ofx,
+			true,
+			"OutputSegment",
+			Type::OutputSegment as u8,
+			&OutputSegmentResponse {
+				response: SegmentResponse {
+					block_hash: some_hash,
+					segment: os.clone(),
+				},
+				output_bitmap_root: rnd_hash(&mut p),
+			},
+		);
+		let (os, ofx, _) = &out_segs[6];
+		b.framed(
+			c,
+			1,
+			*ofx,
+			true,
+			"OutputSegment (mainnet)",
+			Type::OutputSegment as u8,
+			&OutputSegmentResponse {
+				response: SegmentResponse {
+					block_hash: some_hash,
+					segment: os.clone(),
+				},
+				output_bitmap_root: rnd_hash(&mut p),
+			},
+		);
+		let (rs, rfx, _) = &rp_segs[1];
+		b.framed(
+			c,
+			0,
+			*rfx,
+			true,
+			"RangeProofSegment",
+			Type::RangeProofSegment as u8,
+			&SegmentResponse {
+				block_hash: some_hash,
+				segment: rs.clone(),
+			},
+		);
+		let (ks, kfx, _) = &kern_segs[3];
+		b.framed(
+			c,
+			0,
+			*kfx,
+			true,
+			"KernelSegment",
+			Type::KernelSegment as u8,
+			&SegmentResponse {
+				block_hash: some_hash,
+				segment: ks.clone(),
+			},
+		);
+		// types the codec must refuse, an unknown type, and two messages back to back
+		b.framed(c, 0, x, false, "Hand (unexpected)", Type::Hand as u8, &hand);
+		b.framed(c, 0, x, false, "Shake (unexpected)", Type::Shake as u8, &shake);
+		b.framed(c, 0, x, false, "Error (unexpected)", Type::Error as u8, &RawBytes(vec![]));
+		b.framed(c, 0, x, true, "unknown type 200", 200, &RawBytes(vec![1, 2, 3, 4, 5]));
+		b.add(
+			c,
+			0,
+			x,
+			true,
+			"Ping+Pong",
+			&Two(
+				&Framed {
+					net: 0,
+					ty: Type::Ping as u8,
+					body: &ping,
+				},
+				&Framed {
+					net: 0,
+					ty: Type::Pong as u8,
+					body: &pong,
+				},
+			),
+		);
+	}
+
+	Corpus {
+		seeds: b.seeds,
+		fixtures: b.fixtures,
+	}
+}
+
+/// A bare message header announcing `len` bytes.
+struct HeaderOnly {
+	net: u8,
+	ty: u8,
+	len: u64,
+}
+impl Writeable for HeaderOnly {
+	fn write<W: Writer>(&self, w: &mut W) -> Result<(), ser::Error> {
+		let m = magic_for(self.net);
+		w.write_u8(m[0])?;
+		w.write_u8(m[1])?;
+		w.write_u8(self.ty)?;
+		w.write_u64(self.len)
+	}
+}
+impl<'a, W: Writeable> Framed<'a, W> {
+	fn with_len(&self, len: u64) -> HeaderOnly {
+		HeaderOnly {
+			net: self.net,
+			ty: self.ty,
+			len,
+		}
+	}
+}
